@@ -153,6 +153,8 @@ class EngineBase:
             return self.class_ref(v.ci)
         if isinstance(v, FuncV):
             if v.env is None:
+                # function objects are constants; their __name__ is what the source says (in every heap)
+                st.assume(self.hload(st, I(v.fi.id), '__name__') == strv(S(v.fi.name)))
                 return self.func_ref(v.fi)
             return self._materialise(st, v, self.cls('function'))
         if isinstance(v, LambdaV):
